@@ -1,16 +1,88 @@
-"""Spec functions defined by recursion (unfolded by z3 on demand) and the lemma library."""
+"""Sum / Count spec functions and named arrays.
+
+Sum(q, n, body) is SumA(A, n) where A is a *named array* with the definitional axiom  forall q. A[q] == body(q)
+(structurally equal bodies share one array, so equal sums are syntactically equal).  SumA is uninterpreted; its
+recursive definition is given with one level of "fuel" (Dafny style), so every Sum term written in a contract is
+unfolded exactly once and there is no matching loop:
+    SumA(a, n) == if n <= 0 then 0 else SumA0(a, n-1) + a[n-1]        (trigger SumA(a, n))
+    SumA(a, n) == SumA0(a, n)                                          (trigger SumA(a, n))
+    n <= 0  ==>  SumA0(a, n) == 0                                      (trigger SumA0(a, n))
+Induction over sums is done by explicit lemmas (contracts/lemmas.py), never by the solver."""
 import z3
 I = z3.IntSort(); R = z3.RealSort()
 AI = z3.ArraySort(I, I); AR = z3.ArraySort(I, R)
 
-_a = z3.Const('a', AI); _n = z3.Int('n')
-SumA = z3.RecFunction('SumA', AI, I, I)
-z3.RecAddDefinition(SumA, [_a, _n], z3.If(_n <= 0, z3.IntVal(0), SumA(_a, _n - 1) + z3.Select(_a, _n - 1)))
-
-_r = z3.Const('r', AR)
-SumR = z3.RecFunction('SumR', AR, I, R)
-z3.RecAddDefinition(SumR, [_r, _n], z3.If(_n <= 0, z3.RealVal(0), SumR(_r, _n - 1) + z3.Select(_r, _n - 1)))
+SumA = z3.Function('SumA', AI, I, I); SumA0 = z3.Function('SumA0', AI, I, I)
+SumR = z3.Function('SumR', AR, I, R); SumR0 = z3.Function('SumR0', AR, I, R)
+_a = z3.Const('sa', AI); _r = z3.Const('sr', AR); _n = z3.Int('sn')
+SUM_AXIOMS = [
+    z3.ForAll([_a, _n], SumA(_a, _n) == z3.If(_n <= 0, z3.IntVal(0), SumA0(_a, _n - 1) + z3.Select(_a, _n - 1)), patterns=[SumA(_a, _n)]),
+    z3.ForAll([_a, _n], SumA(_a, _n) == SumA0(_a, _n), patterns=[SumA(_a, _n)]),
+    z3.ForAll([_a, _n], z3.Implies(_n <= 0, SumA0(_a, _n) == 0), patterns=[SumA0(_a, _n)]),
+    z3.ForAll([_r, _n], SumR(_r, _n) == z3.If(_n <= 0, z3.RealVal(0), SumR0(_r, _n - 1) + z3.Select(_r, _n - 1)), patterns=[SumR(_r, _n)]),
+    z3.ForAll([_r, _n], SumR(_r, _n) == SumR0(_r, _n), patterns=[SumR(_r, _n)]),
+    z3.ForAll([_r, _n], z3.Implies(_n <= 0, SumR0(_r, _n) == 0), patterns=[SumR0(_r, _n)]),
+]
 
 
 def Count(arr, n):
     return SumA(arr, n)
+
+
+_named = {}
+
+
+def named_array(j, body, bound):
+    """Array term A (or F(bound...) when the body mentions enclosing quantifier variables) with A[q] == body(q)."""
+    V = list(bound)
+    # canonical names for the abstracted variables, so that structurally equal bodies get the same key
+    canon = [z3.Const('$v%d' % i, v.sort()) for i, v in enumerate(V)] + [z3.Int('$q')]
+    lam = z3.substitute(body, *[(v, c) for v, c in zip(V + [j], canon)])
+    key = (lam.get_id(), len(V))
+    if key not in _named:
+        k = len(_named); asort = z3.ArraySort(I, body.sort())
+        if V:
+            F = z3.Function('sumarr!%d' % k, *([v.sort() for v in V] + [asort])); sym = 'sumarr!%d' % k
+            qs = [z3.Const('sv!%d_%d' % (k, i), v.sort()) for i, v in enumerate(V)]; q = z3.Int('sq!%d' % k)
+            b = z3.substitute(body, *([(v, x) for v, x in zip(V, qs)] + [(j, q)]))
+            ax = z3.ForAll(qs + [q], z3.Select(F(*qs), q) == b, patterns=[z3.Select(F(*qs), q)])
+            mk = lambda vs: F(*vs)
+        else:
+            a = z3.Const('sumarr!%d' % k, asort); sym = 'sumarr!%d' % k
+            q = z3.Int('sq!%d' % k)
+            ax = z3.ForAll([q], z3.Select(a, q) == z3.substitute(body, (j, q)), patterns=[z3.Select(a, q)])
+            mk = lambda vs: a
+        _named[key] = (mk, lam, ax, sym)
+    return _named[key][0](V)
+
+
+_sym_cache = {}
+
+
+def symbols(t):
+    """Names of the function symbols occurring in term t, plus '<q>' when it contains a quantifier or lambda
+    (DAG walk with memoisation: printing large shared terms is exponential)."""
+    k = t.get_id()
+    if k in _sym_cache: return _sym_cache[k][1]
+    out = set(); seen = set(); stack = [t]
+    while stack:
+        u = stack.pop(); i = u.get_id()
+        if i in seen: continue
+        seen.add(i)
+        if z3.is_quantifier(u):
+            out.add('<q>'); stack.append(u.body())
+        elif z3.is_app(u):
+            if u.num_args() > 0 or u.decl().kind() == z3.Z3_OP_UNINTERPRETED: out.add(u.decl().name())
+            stack.extend(u.children())
+    _sym_cache[k] = (t, out)
+    return out
+
+
+def axioms_for(syms):
+    """Definitional axioms needed by a VC that mentions the given symbols."""
+    out = []
+    if 'SumA' in syms: out += SUM_AXIOMS[:3]
+    if 'SumR' in syms: out += SUM_AXIOMS[3:]
+    for mk, lam, ax, sym in _named.values():
+        if sym in syms: out.append(ax)
+    return out
